@@ -756,3 +756,171 @@ func goOps(o *Out, seed uint64, n int) {
 		o.Run(strings.TrimSpace("prep " + strings.Join(hs, " ")))
 	}
 }
+
+// seeBatteryOps: constructed exchange positions: a victim on a central target square, and on the lines, diagonals, knight and
+// pawn squares around it random stacks of attackers of both colours (batteries, queens in front of rooks/bishops and behind,
+// kings next to the square), so that x-rays and the order of recaptures decide the sign.
+func seeBatteryOps(o *Out, seed uint64, n int) {
+	rng := NewRng(seed)
+	dirs := [][2]int{{0, 1}, {0, -1}, {1, 0}, {-1, 0}, {1, 1}, {1, -1}, {-1, 1}, {-1, -1}}
+	made := 0
+	for tries := 0; made < n && tries < n*30; tries++ {
+		var board [64]byte
+		t := (2+rng.Intn(4))*8 + 2 + rng.Intn(4)
+		victims := "pnbrq"
+		vcol := rng.Intn(2) // colour of the victim: 0 black victim (white captures), 1 white victim
+		v := victims[rng.Intn(len(victims))]
+		if vcol == 1 {
+			v -= 32
+		}
+		board[t] = v
+		put := func(s int, c byte) bool {
+			if s < 0 || s > 63 || board[s] != 0 {
+				return false
+			}
+			if (c == 'p' || c == 'P') && (s/8 == 0 || s/8 == 7) {
+				return false
+			}
+			board[s] = c
+			return true
+		}
+		// sliders stacked on rays
+		for _, d := range dirs {
+			if rng.Intn(3) == 0 {
+				continue
+			}
+			diag := d[0] != 0 && d[1] != 0
+			f, r := t%8+d[0], t/8+d[1]
+			k := 0
+			for f >= 0 && f < 8 && r >= 0 && r < 8 && k < 3 {
+				if rng.Intn(4) != 0 {
+					var c byte
+					switch rng.Intn(3) {
+					case 0:
+						c = 'q'
+					default:
+						if diag {
+							c = 'b'
+						} else {
+							c = 'r'
+						}
+					}
+					if rng.Bool() {
+						c -= 32
+					}
+					put(r*8+f, c)
+					k++
+				} else if rng.Intn(3) == 0 {
+					break
+				}
+				f += d[0]
+				r += d[1]
+			}
+		}
+		// knights and pawns
+		for _, o2 := range [][2]int{{1, 2}, {2, 1}, {2, -1}, {1, -2}, {-1, -2}, {-2, -1}, {-2, 1}, {-1, 2}} {
+			if rng.Intn(3) == 0 {
+				f, r := t%8+o2[0], t/8+o2[1]
+				if f >= 0 && f < 8 && r >= 0 && r < 8 {
+					c := byte('n')
+					if rng.Bool() {
+						c = 'N'
+					}
+					put(r*8+f, c)
+				}
+			}
+		}
+		for _, df := range []int{-1, 1} {
+			f := t%8 + df
+			if f < 0 || f > 7 {
+				continue
+			}
+			if rng.Intn(2) == 0 && board[(t/8-1)*8+f] == 0 {
+				put((t/8-1)*8+f, 'P') // white pawn attacks upwards
+			}
+			if rng.Intn(2) == 0 && board[(t/8+1)*8+f] == 0 {
+				put((t/8+1)*8+f, 'p')
+			}
+		}
+		// kings: sometimes next to the target
+		var ksq [2]int
+		for c := 0; c < 2; c++ {
+			placed := false
+			for k := 0; k < 40 && !placed; k++ {
+				s := rng.Intn(64)
+				if rng.Intn(2) == 0 {
+					d := dirs[rng.Intn(8)]
+					f, r := t%8+d[0], t/8+d[1]
+					if f < 0 || f > 7 || r < 0 || r > 7 {
+						continue
+					}
+					s = r*8 + f
+				}
+				if board[s] != 0 {
+					continue
+				}
+				if c == 1 && abs(s%8-ksq[0]%8) <= 1 && abs(s/8-ksq[0]/8) <= 1 {
+					continue
+				}
+				ch := byte('K')
+				if c == 1 {
+					ch = 'k'
+				}
+				board[s] = ch
+				ksq[c] = s
+				placed = true
+			}
+			if !placed {
+				board[t] = 0
+			}
+		}
+		if board[t] == 0 {
+			continue
+		}
+		var sb strings.Builder
+		for rank := 7; rank >= 0; rank-- {
+			empty := 0
+			for file := 0; file < 8; file++ {
+				c := board[rank*8+file]
+				if c == 0 {
+					empty++
+					continue
+				}
+				if empty > 0 {
+					fmt.Fprintf(&sb, "%d", empty)
+					empty = 0
+				}
+				sb.WriteByte(c)
+			}
+			if empty > 0 {
+				fmt.Fprintf(&sb, "%d", empty)
+			}
+			if rank > 0 {
+				sb.WriteByte('/')
+			}
+		}
+		side := "w"
+		if vcol == 1 {
+			side = "b"
+		}
+		fen := fmt.Sprintf("%s %s - - 0 1", sb.String(), side)
+		p, err := position.NewFromFen(fen)
+		if err != nil || !checkShape(p) || p.IsInCheck(types.SwitchColor(p.SideToMove)) {
+			continue
+		}
+		h := hexOf(fen)
+		any := false
+		for _, lm := range legalMoves(p) {
+			if int(lm.m.GetTargetSquare()) != t || lm.m.GetMoveType() == move.EN_PASSANT {
+				continue
+			}
+			o.Run(fmt.Sprintf("see %s %d", h, uint32(lm.m)))
+			o.Stat("battery_captures")
+			any = true
+		}
+		if any {
+			made++
+			o.Stat("battery_positions")
+		}
+	}
+}
